@@ -174,11 +174,13 @@ def edge_child(rng, depth, counter):
     if r < 0.55:
         return edge_tree(rng, depth - 1, counter)
     if r < 0.75:
-        return ("T", rng.choice(["x", "a b", "<", "y z"]))
+        return ("T", rng.choice(["x", "a b", "<", "y z", ""]))
     if r < 0.85:
-        return ("H", rng.choice(["<u>h</u>", "h"]))
+        # (empty renderings included: an item that renders to nothing must not make layout
+        # whitespace appear next to it between inline neighbours)
+        return ("H", rng.choice(["<u>h</u>", "h", "", ""]))
     if r < 0.91:
-        return ("R", "<em>r</em>")
+        return ("R", rng.choice(["<em>r</em>", "<em>r</em>", ""]))
     if r < 0.95:
         return ("F",)          # a self-rendering object whose _repr_html_() raises
     return ("M", None)
